@@ -566,6 +566,15 @@ func Run(r *report.Run) int {
 	for _, l := range dlines {
 		all = append(all, tagged{l, "clustered-directed"})
 	}
+	lrounds := r.Pick(160, 4000)
+	llines, ldied := par.Run(r, "c02c-worker", 8, lrounds, 1700, nil, "directed-local")
+	conc.ReportDeaths(r, "C02", ldied)
+	for _, l := range llines {
+		all = append(all, tagged{l, "inprocess-directed"})
+	}
+	if len(llines) < lrounds*9/10 {
+		r.Broken("only %d of %d in-process directed rounds reported", len(llines), lrounds)
+	}
 	for _, l := range all {
 		var res RoundRes
 		if json.Unmarshal(l.Res, &res) != nil {
@@ -617,6 +626,6 @@ func Run(r *report.Run) int {
 	return r.Finish(rule, assumptions, 10)
 }
 
-const rule = "rounds of 3-7 goroutines x 1-2 transactions (public path, ForWriting and ForReading) over 4-8 register keys spread over several nodes plus set keys: read-only snapshots, read-modify-write, read-A-write-B, blind adds of fresh keys, blind removes, replace (remove + re-add of a register in one transaction: a new item under the same key), voluntary rollbacks; PRNG delays at L2 calls and before Commit, GOMAXPROCS cycle; history = per transaction the values it read and the unique values it wrote + commit result, stamped at the harness boundary; oracle = porcupine over one operation per committed transaction, all on the same interval (any serial order allowed), plus the quiescent final scan; values read of existing keys, the found/not-found results of Add and Remove, and the final state decide; fingerprint = commit-order signature; non-trivial = >=2 committed transactions share a key and commits overlapped. CLUSTERED half: rounds of 2-3 OS processes sharing only the store folder and a Redis-protocol L2 (RESP stub), 2-3 waves of 1-3 transactions per process (same vocabulary; each process keeps its L1 cache across waves, so later waves run over caches that other processes' commits have outdated), final scan by a fresh process; same oracle; non-trivial = committed transactions of >=2 different processes touched one key. CLUSTERED-DIRECTED: same processes, every process first warms its L1 cache (reads every register, writes one), then 2-3 episodes in which the harness drives a PRNG-chosen STEP-BY-STEP interleaving (one command at a time, no timing) of 2-3 transactions living in different processes, each episode followed by a read-only transaction in every process; fingerprint = the schedule; a node process that dies with a sop frame in its trace is a violation (process-crash)"
+const rule = "rounds of 3-7 goroutines x 1-2 transactions (public path, ForWriting and ForReading) over 4-8 register keys spread over several nodes plus set keys: read-only snapshots, read-modify-write, read-A-write-B, blind adds of fresh keys, blind removes, replace (remove + re-add of a register in one transaction: a new item under the same key), voluntary rollbacks; PRNG delays at L2 calls and before Commit, GOMAXPROCS cycle; history = per transaction the values it read and the unique values it wrote + commit result, stamped at the harness boundary; oracle = porcupine over one operation per committed transaction, all on the same interval (any serial order allowed), plus the quiescent final scan; values read of existing keys, the found/not-found results of Add and Remove, and the final state decide; fingerprint = commit-order signature; non-trivial = >=2 committed transactions share a key and commits overlapped. CLUSTERED half: rounds of 2-3 OS processes sharing only the store folder and a Redis-protocol L2 (RESP stub), 2-3 waves of 1-3 transactions per process (same vocabulary; each process keeps its L1 cache across waves, so later waves run over caches that other processes' commits have outdated), final scan by a fresh process; same oracle; non-trivial = committed transactions of >=2 different processes touched one key. CLUSTERED-DIRECTED: same processes, every process first warms its L1 cache (reads every register, writes one), then 2-3 episodes in which the harness drives a PRNG-chosen STEP-BY-STEP interleaving (one command at a time, no timing) of 2-3 transactions living in different processes, each episode followed by a read-only transaction in every process; fingerprint = the schedule; a node process that dies with a sop frame in its trace is a violation (process-crash). INPROCESS-DIRECTED: the same harness-driven step interleavings with all participants inside one process (standalone in-memory L2, shared L1)"
 
 var assumptions = []string{"store pre-seeded (README precondition)", "in-process half: standalone in-memory L2; clustered half: the Redis SERVER is the RESP stub of kit/resp (the adapter and go-redis client are the real ones)", "NoCheck mode is not part of the vocabulary", "porcupine timeout 60 s => inconclusive"}
